@@ -336,7 +336,7 @@ class Gen:
         """shapes aimed at the interaction of branches"""
         sp, r = self.sp, self.r
         Q = self.Quantity
-        k = r.randrange(15)
+        k = r.randrange(16)
         u = self.unit()
         w = self.unit()
         def q(e):
@@ -384,6 +384,14 @@ class Gen:
             return z ** r.choice([q(2 * w), w / self.unit(), 2 * w])
         if k == 13:  # zero-valued exponent that carries a dimension (compatible with any dimension: accepted)
             return (3 * u) ** r.choice([q(2 * w) - q(2 * w), q(0 * w)]) * r.choice([1, w])
+        if k == 14:  # exponent / function argument that is dimensionless only once derived dimensions are expanded (J/(N m))
+            from sympy.physics import units as U
+            ratio = r.choice([(U.joule, U.newton * U.meter), (U.watt * U.second, U.joule), (U.pascal * U.meter ** 3, U.joule), (U.volt * U.ampere, U.watt),
+                              (U.coulomb, U.ampere * U.second), (U.hertz * U.second, 1), (U.ohm * U.ampere, U.volt), (U.newton, U.kilogram * U.meter / U.second ** 2)])
+            num, den = ratio
+            ex = r.choice([num / den, q(3 * num) / q(2 * den), q(num) * r.choice([1, 2]) / den])
+            base = r.choice([2, sp.Rational(3, 2), u, q(2 * u), 3 * w])
+            return r.choice([base ** ex, base ** ex * w, sp.exp(ex) * u, base ** (ex + 1)])
         # any-valued operands deciding an unevaluated Min/Max or surviving in a sum
         a = q(r.choice([-3, 5, 2]) * u)
         return r.choice([sp.Max(q(0 * u), a), sp.Min(q(0 * w), a), sp.Max(a, q(0)), a + sp.oo, sp.Min(a, sp.oo * w), a - a + q(0 * w)])
